@@ -14,7 +14,11 @@ def busy : List Nat := [3]
 
 /-- what the probe battery returns for a plain static site / for the order-sensitive site, in a fresh process -/
 def plain (m : String) : String := m ++ "/404.404.404.404.404.id"
-def ordered : String := "O/401.401.401.401.418.gz"
+def ordered : String := "O/401.401.401.401.418.gz/-.-"
+/-- the site protected by an htpasswd file in version `v` (a | b): alice's rule on /secret, bob's on /api -/
+def htSite (v : String) : String := s!"O/401.404.401.401.404.id/{v}.{v}"
+/-- only bob's rule -/
+def htSiteBob (v : String) : String := s!"O/200.404.401.404.404.id/abm.{v}"
 
 /-- a mistyped directive: the parser rejects the file; nothing has run -/
 def typos : List String := ["proxi", "basicaut", "rewrit", "gzi", "loggg", "tlss", "redri", "zzz"]
@@ -28,6 +32,14 @@ def kindCfg (k : String) : Option Cfg :=
   | "C2" => some ⟨[⟨2, plain "C"⟩], 0, .none⟩
   | "H1" => some ⟨[⟨1, plain "H"⟩], 1, .none⟩
   | "HH12" => some ⟨[⟨1, plain "H"⟩, ⟨2, plain "H"⟩], 2, .none⟩
+  | "Pa1" => some ⟨[⟨1, htSite "a"⟩], 0, .none⟩
+  | "Pb1" => some ⟨[⟨1, htSite "b"⟩], 0, .none⟩
+  | "Qa1" => some ⟨[⟨1, htSiteBob "a"⟩], 0, .none⟩
+  -- a malformed htpasswd file: basicauth (a directive that runs after `on`) rejects it
+  | "Pm1" => some ⟨[⟨1, htSite "m"⟩], 0, .setupLate⟩
+  | "Pm2" => some ⟨[⟨1, htSite "m"⟩], 0, .setupLate⟩
+  | "Pm3" => some ⟨[⟨1, htSite "m"⟩], 0, .setupLate⟩
+  | "Pn1" => some ⟨[⟨1, htSite "m"⟩], 0, .setupLate⟩
   | "O1" => some ⟨[⟨1, ordered⟩], 0, .none⟩
   | "OB12" => some ⟨[⟨1, ordered⟩, ⟨2, plain "B"⟩], 0, .none⟩
   | "syn" => some ⟨[⟨1, plain "A"⟩], 0, .parse⟩
